@@ -38,6 +38,8 @@ fn streams() -> Vec<(&'static str, GenFn, EvalFn)> {
         ("c01", s_exec::gen_c01, s_exec::eval_c01),
         ("clip", s_exec::gen_clip, s_exec::eval_clip),
         ("c05", s_exec::gen_c05, s_exec::eval_c05),
+        ("limit", s_exec::gen_limit, s_exec::eval_limit),
+        ("c04", s_exec::gen_c04, s_exec::eval_c04),
         ("fn", s_fn::gen, s_fn::eval),
         ("fnimg", s_fn::gen_img, s_fn::eval_img),
         ("dpevent", s_dp::gen_event_case, s_dp::eval_event_case),
